@@ -696,6 +696,16 @@ func containerRules(c *Ctx, rule string, fam string) {
 // ccContainsRule: f scans its receiver and returns true on (and only on) an element equal to the argument, false after the scan
 func ccContainsRule(c *Ctx, f *ssa.Function) (bool, string) {
 	sx := c.Sx()
+	// the standard-library form: return slices.Contains(list, code) — the same front-to-back equality scan
+	if rets := returnsOf(f); len(rets) == 1 && len(rets[0].Results) == 1 {
+		if cl, ok := rets[0].Results[0].(*ssa.Call); ok && cl.Call.StaticCallee() != nil && cl.Call.StaticCallee().Origin() != nil &&
+			funcKey(cl.Call.StaticCallee().Origin()) == "slices.Contains" && len(cl.Call.Args) == 2 {
+			if ccIsRecvColl(f, cl.Call.Args[0]) && cl.Call.Args[1] == ssa.Value(f.Params[1]) {
+				return true, ""
+			}
+			return false, "slices.Contains is not applied to (the receiver, the argument)"
+		}
+	}
 	ls := findScanLoops(f)
 	if len(ls) != 1 || !ccIsRecvColl(f, ls[0].coll) {
 		return false, "not one ascending scan of the receiver (idiom not recognised)"
